@@ -30,8 +30,10 @@ ASSUMPTIONS = [
 ]
 
 FORMS = ["gopher", "gdollar", "http", "gemini", "gplus", "wap", "spartan"]
-seg = st.one_of(st.text("abcdefghij0123", min_size=1, max_size=4),
-                gen.names(toplevel=False, full=True).filter(lambda n: "|" not in n and "?" not in n))
+seg = st.one_of(st.text("abcdefghij0123", min_size=1, max_size=4), st.text("abcdefghij0123", min_size=1, max_size=4),
+                gen.names(toplevel=False, full=True).filter(lambda n: "|" not in n and "?" not in n),
+                # member names that repeat the archive's own name
+                st.sampled_from(["Tarch.zip.txt", "xTarch.zip", "Tarch.zipx", "Tarch.zip.d"]))  # (not the exact names: a climbing link would hit the twin itself)
 
 
 @st.composite
